@@ -57,6 +57,32 @@ def gen_frame (rng, kind=None, tagged=None, pad=None, payload_len=None,
     l4 = F.icmp(rng.choice([8, 0, 3, 11, 255]), rng.choice([0, 1, 3, 255]),
                 payload=data)
     raw = F.eth(dst, src, 0x0800, ip(1, l4), vlan, pad)
+  elif k == "icmp_quote":
+    # an ICMP error that quotes the offending datagram *completely* (as
+    # RFC 1812 4.3.2.3 routers do): the transport header inside the quote is
+    # payload of the ICMP message, not a header of this frame
+    qs = rng.choice(IPS[:6]); qd = rng.choice(IPS)
+    if rng.random() < 0.5:
+      q4 = F.udp(rng.choice([7, 4000, 65535]), rng.choice([9, 6000, 53]), data,
+                 src=qs, dst=qd)
+      qp = 17
+    else:
+      q4 = F.tcp(rng.choice([80, 1234]), rng.choice([443, 65535]), data,
+                 seq=rng.getrandbits(32), src=qs, dst=qd)
+      qp = 6
+    quote = F.ipv4(qs, qd, qp, q4, ident=rng.getrandbits(16), ttl=rng.choice([1, 63]))
+    l4 = F.icmp(rng.choice([3, 11]), rng.choice([0, 1, 3]), payload=quote)
+    raw = F.eth(dst, src, 0x0800, ip(1, l4), vlan, pad)
+  elif k == "gre_ip":
+    # IPv4 tunnelled in GRE (no optional GRE fields): the inner datagram's
+    # ports are tunnel payload
+    qs = rng.choice(IPS[:6]); qd = rng.choice(IPS)
+    if rng.random() < 0.5:
+      q4 = F.udp(4000, 6000, data, src=qs, dst=qd); qp = 17
+    else:
+      q4 = F.tcp(1234, 443, data, src=qs, dst=qd); qp = 6
+    inner = F.ipv4(qs, qd, qp, q4, ident=rng.getrandbits(16))
+    raw = F.eth(dst, src, 0x0800, ip(47, b"\x00\x00\x08\x00" + inner), vlan, pad)
   elif k == "ipother":
     raw = F.eth(dst, src, 0x0800, ip(rng.choice([50, 89, 132, 255]),
                                      data), vlan, pad)
